@@ -603,6 +603,63 @@ class UniformAcquire(_AcqContract):
         return dict(np=np_module(), ss=NS(uniform=FrozenUniform(self._s.rs)))
 
 
+class MaxVarEvaluate(_AcqContract):
+    """MaxVar.evaluate (inherited by RandMaxVar / used by ExpIntVar): shape of the value - one row per point and ONE column, also for a
+    single parameter vector (the surrogate's predict reshapes to (-1, dim) and returns (rows, 1) arrays: C10).  RandMaxVar's log-density
+    closures are judged against this shape."""
+    target = ACQ + 'MaxVar.evaluate'
+    options = {'div_check': False}          # values are uninterpreted here; this is a shape contract
+
+    def __init__(self, rank):
+        self.rank = rank
+        self.label = 'theta-%dd' % rank
+
+    def setup(self, vc):
+        s = self.base(vc)
+        s.theta = SArr.fresh('theta', (s.dim,) if self.rank == 1 else (s.n, s.dim), 'real')
+        s.rows = z3.IntVal(1) if self.rank == 1 else s.n
+        scalar_prior = vc.fork_values('prior_pdf_scalar', [True, False]) if self.rank == 1 else False
+
+        def predict(x, noiseless=False):
+            vc.oblige('call-pre[predict: the points have one entry per parameter]', x.shape[-1] == s.dim)
+            return SArr.fresh('gp_mean', (s.rows, 1), 'real'), SArr.fresh('gp_var', (s.rows, 1), 'real')
+
+        def pdf(x):
+            # ModelPrior.pdf: one value per row; for a single vector of dim > 1 the bare value (0-d)
+            return SArr.fresh('prior_pdf', (), 'real') if scalar_prior else SArr.fresh('prior_pdf', (s.rows,), 'real')
+        s.self = make_object('MaxVarStub', attrs=dict(model=NS(predict=predict, noise=SReal(z3.Real('sigma2_n'))), eps=SReal(z3.Real('eps')), prior=NS(pdf=pdf)))
+        return s, (s.self, s.theta), {}
+
+    def env(self, vc):
+        def cdf(x, *a, loc=0, scale=1):
+            arrs = [v for v in list(a) + [loc, scale] if isinstance(v, SArr)]
+            for v in arrs[1:]:
+                for p_, q_ in zip(arrs[0].shape, v.shape):
+                    vc.oblige('call-pre[cdf: array parameters have equal shapes]', p_ == q_)
+            return SArr.fresh('cdf', arrs[0].shape, 'real')
+        return dict(np=np_module(), ss=NS(skewnorm=NS(cdf=cdf), norm=NS(cdf=cdf)))
+
+    def requires(self, s):
+        return _AcqContract.requires(self, s) + [z3.Real('sigma2_n') > 0]
+
+    def ensures(self, s, result):
+        if not (isinstance(result, SArr) and result.ndim == 2):
+            return [('the value is a 2-d array (rows, 1)', z3.BoolVal(False))]
+        return [('one row per point (a single parameter vector is one point) and one column', z3.And(result.shape[0] == s.rows, result.shape[1] == 1))]
+
+
+def _shape_text(v):
+    if isinstance(v, SArr):
+        return 'shape (%s)' % ', '.join(str(conc(k)) if conc(k) is not None else '?' for k in v.shape)
+    return type(v).__name__
+
+
+def _all_returns(vc, thunk):
+    """the value a closure of the analysed function returns on THIS path (its branches fork the path as usual, so every way
+    through the closure is visited by some path)"""
+    return [thunk()]
+
+
 class SystemExitModel(Exception):
     """stands for builtins.SystemExit inside the analysed function (a BaseException must not escape the engine)"""
 
@@ -634,20 +691,52 @@ class RandMaxVarAcquire(_AcqContract):
                     raise OutOfSubset('prior.rvs(size)')
                 return SArr.fresh('prior_draw', (s.dim,), 'real')
 
-        def chain(n_samples, params0, target, *a, **kw):
-            vc.oblige('call-pre[mcmc: chain length is n_samples]', T(n_samples) == ns)
-            vc.oblige('call-pre[mcmc: the initial point has one entry per parameter and lies inside the bounds]',
-                      z3.And(z3.BoolVal(isinstance(params0, SArr) and params0.ndim == 1), params0.shape[0] == s.dim, vec_in_bounds(params0, s.dim)))
-            out = SArr.fresh('chain', (ns, s.dim), 'real')
-            s.chains.append(out)
-            return out
-        s.mcmc = NS(metropolis=chain, nuts=chain)
+        def chain_of(sampler):
+            def chain(n_samples, params0, target, *a, **kw):
+                vc.oblige('call-pre[mcmc: chain length is n_samples]', T(n_samples) == ns)
+                vc.oblige('call-pre[mcmc: the initial point has one entry per parameter and lies inside the bounds]',
+                          z3.And(z3.BoolVal(isinstance(params0, SArr) and params0.ndim == 1), params0.shape[0] == s.dim, vec_in_bounds(params0, s.dim)))
+                # the callee's precondition on the closures it is handed (C09: the log-target maps a parameter vector to a SCALAR, its gradient to a
+                # vector): each closure is run once on an arbitrary point.  nuts converts comparisons of the log-target with float(): 0-d only;
+                # metropolis only takes truth values, so a one-element array of any rank also serves.
+                probe = SArr.fresh('chain_point', (s.dim,), 'real')
+                for v in _all_returns(vc, lambda: target(probe)):
+                    if sampler == 'nuts':
+                        ok = isinstance(v, (SReal, SInt, int, float)) or (isinstance(v, SArr) and v.ndim == 0)
+                        vc.oblige('call-pre[mcmc.nuts: the log-target returns a scalar (0-d), got %s]' % _shape_text(v), z3.BoolVal(ok))
+                    else:
+                        ok = isinstance(v, (SReal, SInt, int, float)) or (isinstance(v, SArr) and all(conc(k) == 1 for k in v.shape))
+                        vc.oblige('call-pre[mcmc.metropolis: the log-target returns one value, got %s]' % _shape_text(v), z3.BoolVal(ok))
+                if sampler == 'nuts':
+                    grad = a[0] if a else kw.get('grad_target')
+                    for g_ in _all_returns(vc, lambda: grad(probe)):
+                        if isinstance(g_, SArr) and g_.ndim == 1:
+                            vc.oblige('call-pre[mcmc.nuts: the gradient of the log-target has one entry per parameter]', g_.shape[0] == s.dim)
+                        else:
+                            ok = isinstance(g_, (SReal, SInt, int, float)) or (isinstance(g_, SArr) and g_.ndim == 0)      # a scalar broadcasts over the momentum
+                            vc.oblige('call-pre[mcmc.nuts: the gradient of the log-target is a vector (or a scalar), got %s]' % _shape_text(g_), z3.BoolVal(ok))
+                out = SArr.fresh('chain', (ns, s.dim), 'real')
+                s.chains.append(out)
+                return out
+            return chain
+        s.mcmc = NS(metropolis=chain_of('metropolis'), nuts=chain_of('nuts'))
+
+        def evaluate(self_, x, t=None):
+            # post of MaxVarEvaluate: one row per point, ONE column (a single parameter vector is one point)
+            rows = z3.IntVal(1) if (isinstance(x, SArr) and x.ndim == 1) else x.shape[0]
+            return SArr.fresh('acq_value', (rows, 1), 'real')
+
+        def evaluate_gradient(self_, x, t=None):
+            rows = z3.IntVal(1) if (isinstance(x, SArr) and x.ndim == 1) else x.shape[0]
+            return SArr.fresh('acq_grad', (rows, s.dim), 'real')
         s.self = make_object('RandMaxVarStub', attrs=dict(
             model=model_stub(s), prior=Prior(), quantile_eps=SReal(z3.Real('quantile_eps')), eps=SReal(z3.RealVal('0.1')), random_state=s.rs,
             _n_samples=SInt(ns), _warmup=SInt(wu), _limit_faulty_init=SInt(lim), _init_from_prior=s.init_from_prior, name_sampler=self.sampler,
             _sigma_proposals=Opaque('sigma'), seed=0),
-            methods=dict(evaluate=lambda self_, x, t=None: SReal(cur().fresh('acq_value', R)), evaluate_gradient=lambda self_, x, t=None: Opaque('acq_grad')))
+            methods=dict(evaluate=evaluate, evaluate_gradient=evaluate_gradient))
         return s, (s.self, SInt(s.n)), dict(t=SInt(z3.Int('t')))
+
+    options = {'div_check': False}          # the density value in the denominator of the log-gradient is non-zero on that branch of the closure
 
     def env(self, vc):
         return dict(np=np_module(), mcmc=self._s.mcmc, SystemExit=SystemExitModel)
@@ -1059,8 +1148,18 @@ class AllowSubmit(Contract):
         i, pend, left = z3.Ints('batch_index num_pending acquisitions_left')
         vc.fin_bounds.extend([i, pend, left])
         s = NS(b=b, bpa=bpa, ni=ni, npre=npre, i=i, pend=pend, left=left, base_ok=z3.Bool('base_allows'), async_=z3.Bool('async_acq'))
-        s.self = make_object('BOStub', attrs=dict(async_acq=SBool(s.async_), state=dict(acquisition=SArr.fresh('acq', (left, 2), 'real')),
-                                                  batches=NS(has_pending=SBool(pend > 0), num_pending=SInt(pend))),
+        # state an equivalent formulation of "some batch is pending" may read; pinned by invariants proved elsewhere: n_evidence = n_precomputed +
+        # batch_size * consumed batches (BOInit, BOUpdate), n_sim / n_batches (ParameterInference.update), submitted = consumed + pending (BatchHandler, C04)
+        total = z3.Int('batches_total')
+        vc.fin_bounds.append(total)
+        s.total = total
+        consumed = total - pend
+        s.self = make_object('BOStub', attrs=dict(async_acq=SBool(s.async_), batch_size=SInt(b), batches_per_acquisition=SInt(bpa),
+                                                  n_initial_evidence=SInt(ni), n_precomputed_evidence=SInt(npre),
+                                                  state=dict(acquisition=SArr.fresh('acq', (left, 2), 'real'), n_evidence=SInt(npre + b * consumed),
+                                                             n_batches=SInt(consumed), n_sim=SInt(b * consumed)),
+                                                  batches=NS(has_pending=SBool(pend > 0), num_pending=SInt(pend), total=SInt(total), next_index=SInt(total),
+                                                             num_ready=SInt(consumed))),
                              methods=dict(_vc_super=lambda self_: NS(_allow_submit=lambda i_: SBool(s.base_ok)), _get_acquisition_index=acq_index_stub(s)))
         return s, (s.self, SInt(i)), {}
 
@@ -1068,7 +1167,7 @@ class AllowSubmit(Contract):
         return bo_env(vc)
 
     def requires(self, s):
-        return [s.b >= 1, s.bpa >= 1, s.ni >= 0, s.npre >= 0, s.i >= 0, s.pend >= 0, s.left >= 0]
+        return [s.b >= 1, s.bpa >= 1, s.ni >= 0, s.npre >= 0, s.i >= 0, s.pend >= 0, s.left >= 0, s.total >= s.pend]
 
     def ensures(self, s, result):
         r = T(result)
@@ -1214,6 +1313,6 @@ def contracts():
     return [Minimize('uniform-rs'), Minimize('uniform-module'), Minimize('prior-2d'), Minimize('prior-1d'),
             AddNoise('none'), AddNoise('zero'), AddNoise('scalar'), AddNoise('per-parameter'),
             BaseAcquire(False), BaseAcquire(True), MaxVarAcquire(), UniformAcquire(), ExpIntVarAcquire('grid'), ExpIntVarAcquire('importance'),
-            RandMaxVarAcquire('metropolis'), RandMaxVarAcquire('nuts'),
+            MaxVarEvaluate(1), MaxVarEvaluate(2), RandMaxVarAcquire('metropolis'), RandMaxVarAcquire('nuts'),
             GetAcquisitionIndex(), ResolveInitialEvidence('default'), ResolveInitialEvidence('count'), ResolveInitialEvidence('precomputed'),
             BOInit('precomputed'), BOInit('count'), BOUpdate(), ShouldOptimize(), NEvidence(), AllowSubmit(), PrepareNewBatch(), Iterate()]
